@@ -41,7 +41,7 @@ RULE = ('stream engine (mode paired): program x oracle x two schedules (+evict, 
         'joins all/one/N with successors, guards that do not fire, 30% multi-activation), indirect-join shapes and larger '
         'single-activation DAGs with task-defaults x oracle (set of failing tasks) x random/fifo/lifo schedule x 0-2 '
         'pause/resume rounds x cache eviction on/off on the REAL engine, outcome at quiescence vs Mistral.Sem; non-trivial = '
-        'a join, a failing task or an operator command; distinct = distinct (definition, oracle, schedule seed, commands, evict)')
+        'a join, a failing task or an operator command; distinct = distinct (definition, oracle, schedule seed, commands, evict); stream ctx as in C05 (the real data-flow functions on generated publish histories, every inbound context in all row orders, against Mistral.Ctx + order-independence monitor)')
 TRUSTED = ['harness seams replaced by recorders']
 LEAN_MODULES = ['Mistral.Props.C02', 'Mistral.Props.C02Sem']
 
@@ -54,10 +54,17 @@ def correspond(ctx):
     # the declarative semantics itself against the real engine (not run against run): real runs to quiescence
     # under random schedules (+pause/resume, +cache eviction) vs `sem.rows` of the Lean driver
     par.run_parallel(ctx, 'harness.sem_stream', 'run_chunk', [{'n_programs': ctx.n(10, 300)}] * 14)
+    # the tie of merge_order_independent: the REAL data-flow functions on generated publish histories with every
+    # inbound context evaluated in ALL row orders (joins <= 4 parents) against Mistral.Ctx, and the monitor
+    # "the upstream context does not depend on the order the rows are listed when no publishers are concurrent"
+    par.run_parallel(ctx, 'harness.ctx_stream', 'run_chunk', [{'n_histories': ctx.n(100, 3000)}] * 14)
 
 
 def search(ctx):
     from vlib import par
+    par.run_parallel(ctx, 'harness.ctx_stream', 'run_chunk', [{'n_histories': 1000}] * 14)
+    if ctx.violations:
+        return
     par.run_parallel(ctx, 'harness.engine_stream', 'run_chunk',
                      [{'n_programs': 40, 'props': ['C02'], 'mode': 'paired'}] * 14)
 
@@ -66,6 +73,11 @@ def replay(ctx, rep):
     if isinstance(rep.get('replay'), dict) and rep['replay'].get('stream') == 'sem':
         from harness import sem_stream
         sem_stream.replay(ctx, rep)
+        return
+    r = rep.get('replay', rep)
+    if isinstance(r, dict) and 'history' in r:
+        from harness import ctx_stream
+        ctx_stream.replay(ctx, r)
         return
     from harness import engine_stream
     engine_stream.replay(ctx, rep, ['C02'])
